@@ -3,7 +3,7 @@ from translators import tr_c20
 
 PID = "C20"
 CLAIM = True
-MANIFEST_TEXT = ("Lean 4 theorems (37, all sizes/entries/indices/store states/record sizes and byte strides) about an executable model of dune-common's Python bindings "
+MANIFEST_TEXT = ("Lean 4 theorems (38, all sizes/entries/indices/store states/record sizes and byte strides) about an executable model of dune-common's Python bindings "
                  "for dense vectors: construction from list/tuple/args = first n numbers zero-filled (the binding's copy loop refines "
                  "it), the buffer constructor over a buffer_info in bytes = the same for the buffer's entries whenever NumPy calls the buffer "
                  "aligned (which the format check enforces), byte addressing ptr+j*stride hits exactly the cell a view denotes for every "
@@ -13,7 +13,8 @@ MANIFEST_TEXT = ("Lean 4 theorems (37, all sizes/entries/indices/store states/re
                  "vector and are exact; views, slice views and NumPy-backed C++ vectors alias the vector's cells, copies are independent; "
                  "every bound arithmetic/comparison/norm/string operation equals the plain C++ vector operation on the entries, incl. "
                  "FieldVector<K,1> scalar arithmetic and operands given as tuple/NumPy array/strided view/array.array; tuple vectors "
-                 "preserve entry types and values; and, by induction over programs, a store invariant (registers name existing vectors, "
+                 "preserve entry types and values, and after every program of tuple-vector operations (by value or by reference) every entry still "
+                 "has the element type of the shape and every FieldVector entry names an existing object of exactly n cells; and, by induction over programs, a store invariant (registers name existing vectors, "
                  "FieldVector<K,n> has n cells, every view entry is an existing cell and its byte address is where that cell starts) holds after "
                  "every program of bound operations. "
                  "Tied to the source on every run, first by a translator (tools/translators/tr_c20.py) that regenerates from the headers "
